@@ -34,7 +34,7 @@ SIG_REL_FIRST = "block-centres-relative-to-first-delimiter"    # GridIndex: RelF
 GRID_CFG = {
     # (cfg, replay limit)
     "quick": [("GridIndexBlockQuick.cfg", None), ("GridIndexGrid2DQuick.cfg", None), ("GridIndexOctreeQuick.cfg", None)],
-    "thorough": [("GridIndexBlockTwo.cfg", None), ("GridIndexBlockFull.cfg", 30000), ("GridIndexGrid2DFull.cfg", 30000),
+    "thorough": [("GridIndexBlockTwo.cfg", None), ("GridIndexBlockFull.cfg", 20000), ("GridIndexGrid2DFull.cfg", 20000),
                  ("GridIndexOctreeFull.cfg", None)],
 }
 FILE_SAMPLE = {"quick": 100, "thorough": 1500}      # cases per GridIndex cfg replayed once more through a file
